@@ -1,5 +1,6 @@
 import Spine.SenderThm
 import Spine.Counter
+import Spine.SenderLru
 /-!
 # C13 — outbound message identity and request de-duplication
 
@@ -59,5 +60,20 @@ theorem c13_last100_refuted :
     let s := ((List.replicate 100 Snd.Op.notify) ++ [Snd.Op.get 1, Snd.Op.notify]).foldl Snd.step {}
     (Snd.get s 2).2 = false ∧ 2 + 100 > s.msgNum :=
   Snd.last100_refuted
+
+/-- PARTIAL (the region where the last-100 clause holds): in every history without lookups — a
+    lookup is what promotes an old entry — each of the most recent 100 notifications is retrievable
+    by its counter. `Snd.notified {} ops` lists the notification counters, most recent first. -/
+theorem c13_last100_partial (ops : List Snd.Op) (hg : ∀ op ∈ ops, Snd.isGet op = false) (c : Nat)
+    (hc : c ∈ (Snd.notified {} ops).take 100) : (Snd.get (ops.foldl Snd.step {}) c).2 = true := by
+  have h := Snd.lru_eq_recent ops {} hg (by simp) (by decide)
+  have hm : c ∈ (ops.foldl Snd.step {}).lru := by
+    rw [h]; simpa using hc
+  unfold Snd.get
+  simp [hm]
+
+/-- non-vacuity: 150 notifications, the 100 most recent counters are 150 … 51 -/
+example : (Snd.notified {} (List.replicate 150 Snd.Op.notify)).take 100 = (List.range' 51 100).reverse := by
+  decide +kernel
 
 end Spine.Props.C13
